@@ -158,6 +158,11 @@ def exec (env : Env) : Nat → Stmt → Locals → St → Option (Ctl × Locals 
         if p = 0 then none
         else some (.next, L, { mem := store env.endian k s.mem p (L i),
                                log := s.log ++ [⟨p, k, 1, true⟩] })
+  | _ + 1, .storeVal a k e, L, s =>
+      (evalE env L a).bind fun p => (evalE env L e).bind fun v =>
+        if p = 0 then none
+        else some (.next, L, { mem := store env.endian k s.mem p v,
+                               log := s.log ++ [⟨p, k, k, true⟩] })    -- a typed access: alignment k
   | _ + 1, .copy d sr n, L, s =>
       (evalE env L d).bind fun pd => (evalE env L sr).bind fun ps => (evalE env L n).bind fun k =>
         if k ≠ 0 && (pd = 0 || ps = 0) then none
